@@ -7,7 +7,8 @@
    same Handle).  That this set is prefix free — the C11 hypothesis of the theorems — is
    re-checked on every case. *)
 From Coq Require Import List NArith Arith Bool.
-From Verif Require Import C18.Model.
+From Coq Require Import ZArith.
+From Verif Require Import Gen.Consts C18.Model.
 Import ListNotations.
 
 Record case := mkcase {
@@ -73,3 +74,25 @@ Definition check_case (c : case) : bool :=
 
 Definition mismatches (cs : list case) : list N :=
   map cid (filter (fun c => negb (check_case c)) cs).
+
+(* ---- depth over a long-lived connection ---- *)
+Record dcase := mkdcase {
+  did : N;
+  dkind : rpckind;
+  dmaxd : nat;                         (* Handle.MaxDepth (0 = default 1024) *)
+  dframes : list (list nat);           (* nesting of the value slots of each message, in reading order *)
+  o_fail : option nat }.               (* index of the first message the real codec failed to read *)
+
+Definition eqb_onat (a b : option nat) : bool :=
+  match a, b with
+  | None, None => true
+  | Some x, Some y => Nat.eqb x y
+  | _, _ => false
+  end.
+
+Definition check_dcase (c : dcase) : bool :=
+  let maxd := if Nat.eqb (dmaxd c) 0 then Z.to_nat decDefMaxDepth else dmaxd c in
+  eqb_onat (dec_conn (mark_leaks_of (dkind c)) (dkind c) maxd 0 (dframes c) 0) (o_fail c).
+
+Definition dmismatches (cs : list dcase) : list N :=
+  map did (filter (fun c => negb (check_dcase c)) cs).
